@@ -124,3 +124,36 @@ mut('C15_pilot_wait_ignores_final', 'pilot.py',
 mut('C15_wait_tasks_slow_poll', TM,
     "            time.sleep (0.1)\n",
     "            time.sleep (0.5)\n")
+
+PO = 'agent/executing/popen.py'
+EB = 'agent/executing/base.py'
+mut('C07_ownership_check_after_publish', PO,
+    "        with self._check_lock:\n            if tid not in self._tasks:\n                return\n            try:\n                del self._tasks[tid]\n            except KeyError:\n                pass\n",
+    "        if tid not in self._tasks:\n            return\n")
+mut('C07_cancel_without_check_lock', PO,
+    "        with self._check_lock:\n            if tid not in self._tasks:\n                return\n",
+    "        if True:\n            if tid not in self._tasks:\n                return\n")
+mut('C08_late_cancel_check_removed', PO,
+    "        if canceled:\n            self.cancel_task(task)\n",
+    "        pass\n")
+mut('C07_error_path_without_unschedule', PO,
+    "                self._prof.prof('unschedule_start', uid=task['uid'])\n                self.publish(rpc.AGENT_UNSCHEDULE_PUBSUB, task)\n\n                self.advance_tasks(task, rps.FAILED, publish=True, push=False)",
+    "                self._prof.prof('unschedule_start', uid=task['uid'])\n\n                self.advance_tasks(task, rps.FAILED, publish=True, push=False)")
+mut('C07_watcher_ignores_ownership', PO,
+    "                with self._check_lock:\n                    if tid not in self._tasks:\n                        # task was canceled before, nothing to do\n                        continue\n",
+    "                with self._check_lock:\n                    if False:\n                        # task was canceled before, nothing to do\n                        continue\n")
+mut('C07_nonzero_exit_reported_done', PO,
+    "                if exit_code == 0:\n                    # The task finished cleanly",
+    "                if exit_code >= 0:\n                    # The task finished cleanly")
+mut('C07_cancel_pushes_without_unschedule', PO,
+    "        self._prof.prof('unschedule_start', uid=tid)\n        self.publish(rpc.AGENT_UNSCHEDULE_PUBSUB, task)\n\n        self.advance([task], rps.AGENT_STAGING_OUTPUT_PENDING,",
+    "        self._prof.prof('unschedule_start', uid=tid)\n\n        self.advance([task], rps.AGENT_STAGING_OUTPUT_PENDING,")
+mut('C07_cancel_of_finished_task_proceeds', PO,
+    "            # task is done, nothing to do\n            self._log.debug('task %s is already done', tid)\n            return\n",
+    "            # task is done, nothing to do\n            self._log.debug('task %s is already done', tid)\n")
+mut('C07_timeout_cancels_finished_too', EB,
+    "                if now > cancel_time:\n                    if cancel_time:",
+    "                if now > cancel_time or True:\n                    if cancel_time:")
+mut('C07_executing_announced_per_task_again', PO,
+    "                self._tasks.update({task['uid']: task})\n                self._handle_task(task)",
+    "                self._tasks.update({task['uid']: task})\n                self.advance_tasks(task, rps.AGENT_EXECUTING, publish=True, push=False)\n                self._handle_task(task)")
